@@ -209,6 +209,7 @@ class State:
         self.globals = {}
         self.old = None
         self.marks = {}      # named snapshots (loop entry)
+        self.tags = {}       # index into pc -> tag (hypotheses that a loop contract may hide)
 
     def copy(self):
         s = State()
@@ -218,6 +219,7 @@ class State:
         s.globals = self.globals
         s.old = self.old
         s.marks = dict(self.marks)
+        s.tags = dict(self.tags)
         return s
 
     def snapshot(self):
@@ -225,8 +227,10 @@ class State:
         s.old = None
         return s
 
-    def assume(self, *terms):
+    def assume(self, *terms, tag=None):
         for t in terms:
+            if tag is not None:
+                self.tags[len(self.pc)] = tag
             self.pc.append(t)
 
     def alloc(self, node):
